@@ -2,7 +2,11 @@ module verifsim
 
 go 1.26.8
 
-require github.com/zeromicro/go-zero v0.0.0
+require (
+	github.com/anishathalye/porcupine v1.3.0
+	github.com/zeromicro/go-zero v0.0.0
+	google.golang.org/grpc v1.65.0
+)
 
 require (
 	filippo.io/edwards25519 v1.1.0 // indirect
@@ -73,7 +77,6 @@ require (
 	golang.org/x/time v0.10.0 // indirect
 	google.golang.org/genproto/googleapis/api v0.0.0-20240711142825-46eb208f015d // indirect
 	google.golang.org/genproto/googleapis/rpc v0.0.0-20240701130421-f6361c86f094 // indirect
-	google.golang.org/grpc v1.65.0 // indirect
 	google.golang.org/protobuf v1.36.5 // indirect
 	gopkg.in/inf.v0 v0.9.1 // indirect
 	gopkg.in/yaml.v2 v2.4.0 // indirect
